@@ -38,6 +38,7 @@ type impExt struct {
 }
 
 type impWant struct {
+	valPtr   []string // struct types whose pointers live only in one local slice: elements are values, `x := sl[i]` is an alias of sl[i]
 	stops    bool // also emit <iterator>_stop: the consumer declines after stop__ items
 	optRes   bool     // results of pointer-to-struct type are options (nil is None)
 	optPtr   []string // *T is (option T) everywhere, for these named types / "string"
@@ -68,7 +69,7 @@ var impWants = []impWant{
 			"argmax", "traceAlignmentStepsLocal", "Local",
 			"init@pam120.go#0", "init@pam160.go#0", "init@pam250.go#0", "init@blosum45.go#0", "init@blosum62.go#0", "init@blosum80.go#0", "init@levenshtein.go#0"}},
 	{dir: "align", pkg: "alignf", funcs: []string{"SubstitutionMatrix.Symmetrical"}, floatAs: "F"},
-	{dir: "trie", pkg: "trie", funcs: []string{"New", "Trie.Add", "Trie.Has", "Trie.Delete"}, heap: "Trie"},
+	{dir: "trie", pkg: "trie", funcs: []string{"New", "Trie.Add", "Trie.Has", "Trie.Delete", "Trie.keys", "Trie.ForEach"}, heap: "Trie", valPtr: []string{"forEachStep"}, stops: true},
 	{dir: "formats/fasta", pkg: "fasta", funcs: []string{"Fasta.Write", "Fasta.MarshalText"}, join: true},
 	{dir: "formats/fasta", pkg: "fastard", stops: true, funcs: []string{"reader.read", "reader.iter", "Reader"}, errZ: true},
 	{dir: "formats/fastq", pkg: "fastq", funcs: []string{"Fastq.Write", "Fastq.MarshalText"}, join: true},
@@ -129,6 +130,9 @@ type impTr struct {
 	heapType string
 	heapRec  bool
 	fnHeap   bool
+	valPtr   []string
+	aliasOf  map[types.Object]ast.Expr // alias variable -> the slice expression it indexes (pre-scan)
+	aliasIdx map[types.Object]string   // alias variable -> the index it was taken at (a bound name)
 	stopMode bool
 	optRes   bool
 	inResTy  bool
@@ -265,6 +269,71 @@ func (t *impTr) recPkgOf(name string) string {
 		return p
 	}
 	return t.pkg
+}
+
+// isValPtr: *S for a struct S whose pointers are kept as values inside one slice.
+func (t *impTr) isValPtr(ty types.Type) bool {
+	p, ok := ty.(*types.Pointer)
+	if !ok {
+		return false
+	}
+	n, ok := p.Elem().(*types.Named)
+	if !ok {
+		return false
+	}
+	for _, v := range t.valPtr {
+		if v == n.Obj().Name() {
+			return true
+		}
+	}
+	return false
+}
+
+// aliasBase: e is an alias variable (x := sl[i] of a value-pointer slice): the slice and the index.
+func (t *impTr) aliasBase(e ast.Expr) (ast.Expr, string, bool) {
+	id, ok := e.(*ast.Ident)
+	if !ok {
+		return nil, "", false
+	}
+	o := t.info.Uses[id]
+	if o == nil {
+		return nil, "", false
+	}
+	sl, ok := t.aliasOf[o]
+	if !ok {
+		return nil, "", false
+	}
+	ix, ok := t.aliasIdx[o]
+	if !ok {
+		t.fail(e, "alias used before it is set")
+	}
+	return sl, ix, true
+}
+
+// hasStateEffect: evaluating e calls the yield callback, a bufio method or a heap function, i.e.
+// changes one of the threaded pseudo variables out__ / rd__ / h__.
+func (t *impTr) hasStateEffect(e ast.Expr) bool {
+	found := false
+	ast.Inspect(e, func(n ast.Node) bool {
+		if c, ok := n.(*ast.CallExpr); ok {
+			if o := t.calleeObj(c.Fun); o != nil {
+				if t.yield != nil && o == t.yield {
+					found = true
+				}
+				if t.stream && isBufioMethod(o) {
+					found = true
+				}
+				if fn, ok := t.fns[o]; ok && (fn.heap || fn.stream) {
+					found = true
+				}
+			}
+		}
+		if _, ok := n.(*ast.FuncLit); ok {
+			return false
+		}
+		return true
+	})
+	return found
 }
 
 func (t *impTr) heapTy() string {
@@ -733,6 +802,13 @@ func (t *impTr) ex(e ast.Expr, pre *[]opener) string {
 				return "3%Z"
 			}
 		}
+		if sl, ix, ok := t.aliasBase(e.X); ok {
+			n := t.typeOf(e.X).(*types.Pointer).Elem().(*types.Named)
+			t.record(n)
+			el := t.fresh()
+			*pre = append(*pre, opener{fmt.Sprintf("go_index %s %s (fun %s => ", t.ex(sl, pre), ix, el), ")"})
+			return fmt.Sprintf("(imp_%s_%s_%s %s)", t.recPkgOf(n.Obj().Name()), n.Obj().Name(), e.Sel.Name, el)
+		}
 		if px, n, f, ok := t.heapField(e); ok {
 			t.record(n)
 			pp := t.ex(px, pre)
@@ -813,6 +889,9 @@ func (t *impTr) ex(e ast.Expr, pre *[]opener) string {
 		}
 		if t.heapRec && t.isHeapPtr(ty) { // {} standing for &T{} inside a []*T literal
 			return t.heapAlloc(e, pre)
+		}
+		if p, ok := ty.(*types.Pointer); ok && t.isValPtr(ty) { // {..} standing for &S{..}: the value
+			ty = p.Elem()
 		}
 		switch u := ty.Underlying().(type) {
 		case *types.Struct:
@@ -895,6 +974,9 @@ func (t *impTr) ex(e ast.Expr, pre *[]opener) string {
 func (t *impTr) binary(e *ast.BinaryExpr, pre *[]opener) string {
 	lt := t.typeOf(e.X)
 	if e.Op == token.LAND || e.Op == token.LOR {
+		if t.hasStateEffect(e.Y) {
+			t.fail(e, "the right operand of && / || calls the callback, the reader or a heap function (only supported as the condition of an if)")
+		}
 		a := t.ex(e.X, pre)
 		var preB []opener
 		b := t.ex(e.Y, &preB)
@@ -1429,6 +1511,10 @@ func (t *impTr) assigned(n ast.Node) ([]types.Object, int) {
 		if o == nil {
 			return // a definition inside n
 		}
+		if sl, isAlias := t.aliasOf[o]; isAlias { // a store through an alias is a store into its slice
+			id = sl.(*ast.Ident)
+			o = t.info.Uses[id]
+		}
 		if o.Pos() >= n.Pos() && o.Pos() < n.End() {
 			return
 		}
@@ -1687,6 +1773,15 @@ func (t *impTr) store(lhs ast.Expr, v string, pre *[]opener) {
 			return
 		}
 	case *ast.SelectorExpr:
+		if sl, ix, ok := t.aliasBase(l.X); ok {
+			n := t.typeOf(l.X).(*types.Pointer).Elem().(*types.Named)
+			t.record(n)
+			el, nv := t.fresh(), t.fresh()
+			slx := t.ex(sl, pre)
+			*pre = append(*pre, opener{fmt.Sprintf("go_index %s %s (fun %s => go_set %s %s (imp_%s_%s_with_%s %s %s) (fun %s => ", slx, ix, el, slx, ix, t.recPkgOf(n.Obj().Name()), n.Obj().Name(), l.Sel.Name, el, v, nv), "))"})
+			t.store(sl, nv, pre)
+			return
+		}
 		if px, n, f, ok := t.heapField(l); ok {
 			t.record(n)
 			pp := t.ex(px, pre)
@@ -1783,6 +1878,20 @@ func (t *impTr) block(list []ast.Stmt, k string, lc *loopCtx) string {
 							return rest() // only FindAllString(_, -1) is supported on it: the non-space fields
 						}
 						t.fail(s, "a regular expression other than \\S+")
+					}
+				}
+			}
+		}
+		if len(s.Lhs) == 1 && len(s.Rhs) == 1 {
+			if id, ok := s.Lhs[0].(*ast.Ident); ok {
+				if o := t.info.Defs[id]; o != nil {
+					if _, isAlias := t.aliasOf[o]; isAlias {
+						ie := s.Rhs[0].(*ast.IndexExpr)
+						ix := t.ex(ie.Index, &pre)
+						v := t.fresh()
+						pre = append(pre, opener{fmt.Sprintf("let %s := %s in ", v, ix), ""})
+						t.aliasIdx[o] = v
+						return wrapOpeners(pre, rest())
 					}
 				}
 			}
@@ -1951,6 +2060,12 @@ func (t *impTr) block(list []ast.Stmt, k string, lc *loopCtx) string {
 			cp := *s
 			cp.Init = nil
 			return t.block(append(append(stmts, &cp), list[1:]...), k, lc)
+		}
+		if be, ok := s.Cond.(*ast.BinaryExpr); ok && be.Op == token.LAND && t.hasStateEffect(be.Y) {
+			// if A && B {X} else {Y}  with an effect in B:  if A { if B {X} else {Y} } else {Y}
+			inner := &ast.IfStmt{If: s.If, Cond: be.Y, Body: s.Body, Else: s.Else}
+			outer := &ast.IfStmt{If: s.If, Cond: be.X, Body: &ast.BlockStmt{Lbrace: s.Body.Lbrace, List: []ast.Stmt{inner}, Rbrace: s.Body.Rbrace}, Else: s.Else}
+			return t.block(append([]ast.Stmt{outer}, list[1:]...), k, lc)
 		}
 		c := t.ex(s.Cond, &pre)
 		if t.join && len(list) > 1 && !hasBranch(s) {
@@ -2415,6 +2530,24 @@ func (t *impTr) rangeStmt(s *ast.RangeStmt, rest func() string) string {
 			return wrapOpeners(pre, fmt.Sprintf("go_call (%s %s) (fun %s => after (%s) (fun %s => %s))", fn.name, strings.Join(args, " "), patIt, loop, pat(state), rest()))
 		}
 	}
+	if p, ok := t.heapMap(s.X); ok && !t.heapRec {
+		if s.Value != nil {
+			t.fail(s, "range over a heap map with values")
+		}
+		// for k := range p.m: the keys in the order the node holds them (ascending; Go's order is
+		// unspecified, this is one of the possible ones)
+		pp := t.ex(p, &pre)
+		nd := t.fresh()
+		kn := "_"
+		if s.Key != nil {
+			if id := s.Key.(*ast.Ident); id.Name != "_" {
+				kn = t.nameOf(t.info.Defs[id])
+			}
+		}
+		body := t.block(s.Body.List, "Next "+state, &loopCtx{state: state})
+		loop := fmt.Sprintf("go_index h__ %s (fun %s => go_range (map fst %s) (fun _ %s %s => %s) %s)", pp, nd, nd, kn, pat(state), body, state)
+		return wrapOpeners(pre, fmt.Sprintf("after (%s) (fun %s => %s)", loop, pat(state), rest()))
+	}
 	x := t.ex(s.X, &pre)
 	name := func(e ast.Expr) string {
 		if e == nil {
@@ -2725,6 +2858,26 @@ func (t *impTr) function(fd *ast.FuncDecl, coqName string) *impFn {
 	t.recv = ""
 	t.bufName = ""
 	t.outName = ""
+	// aliases of elements of value-pointer slices
+	t.aliasOf = map[types.Object]ast.Expr{}
+	t.aliasIdx = map[types.Object]string{}
+	if len(t.valPtr) > 0 {
+		ast.Inspect(fd, func(n ast.Node) bool {
+			if as, ok := n.(*ast.AssignStmt); ok && len(as.Lhs) == 1 && len(as.Rhs) == 1 {
+				if id, ok := as.Lhs[0].(*ast.Ident); ok {
+					if ie, ok := as.Rhs[0].(*ast.IndexExpr); ok {
+						if o := t.info.Defs[id]; o != nil && t.isValPtr(o.Type()) {
+							if _, ok := ie.X.(*ast.Ident); !ok {
+								t.fail(as, "alias of something other than a local slice")
+							}
+							t.aliasOf[o] = ie.X
+						}
+					}
+				}
+			}
+			return true
+		})
+	}
 	// does this function touch the heap at all?
 	t.fnHeap = false
 	if t.heapType != "" {
@@ -2828,6 +2981,9 @@ func (t *impTr) function(fd *ast.FuncDecl, coqName string) *impFn {
 			return // the writer is the list of emitted chunks
 		}
 		defer func() { t.nparams++ }()
+		if _, isFunc := o.Type().(*types.Signature); isFunc {
+			return // the callback of a push iterator: its calls are the items
+		}
 		if o.Type().String() == "io.Reader" {
 			// the reader is wrapped by newReader / bufio.NewReader: the threaded stream state
 			t.stream = true
@@ -2920,6 +3076,22 @@ func (t *impTr) function(fd *ast.FuncDecl, coqName string) *impFn {
 						text = "let out__ := [] in " + t.block(fl.Body.List, ret, nil)
 					}
 				}
+			}
+		}
+	}
+	// a push iterator: a parameter  f func(T) bool  that is called with every item
+	if t.yield == nil {
+		for i := 0; i < sig.Params().Len(); i++ {
+			if ys, ok := sig.Params().At(i).Type().(*types.Signature); ok && ys.Params().Len() == 1 && ys.Results().Len() == 1 && sig.Results().Len() == 0 {
+				t.yield = sig.Params().At(i)
+				rt = "(list " + t.ty(ys.Params().At(0).Type()) + ")"
+				ret := "Ret out__"
+				if t.fnHeap {
+					ret = "Ret (h__, out__)"
+					rt = "(" + t.heapTy() + " * " + rt + ")"
+				}
+				t.retWrap = func(string) string { return ret }
+				text = "let out__ := [] in " + t.block(body, ret, nil)
 			}
 		}
 	}
@@ -3163,7 +3335,7 @@ func genImp(repo, out string) {
 			panic(fmt.Sprintf("type-checking %s: %v", want.dir, err))
 		}
 		t := &impTr{pkg: want.pkg, info: info, fset: fset, fns: map[types.Object]*impFn{}, globals: want.globals,
-			records: map[string]bool{}, join: want.join, floatAs: want.floatAs, errZ: want.errZ, heapType: want.heap, heapRec: want.heapRec, optRes: want.optRes, optPtr: want.optPtr, ext: want.ext, extRecs: want.extRecs}
+			records: map[string]bool{}, join: want.join, floatAs: want.floatAs, errZ: want.errZ, heapType: want.heap, heapRec: want.heapRec, optRes: want.optRes, optPtr: want.optPtr, ext: want.ext, extRecs: want.extRecs, valPtr: want.valPtr}
 		fmt.Fprintf(sb, "(* ---- package %s ---- *)\n", want.dir)
 		for _, fname := range want.funcs {
 			if strings.HasPrefix(fname, "var:") { // the initialiser of a package-level variable, as a constant
